@@ -254,7 +254,9 @@ pub fn check_c18(rec: &mut Recorder, f: &Flat, pv: &PView) {
         }
         rec.check(p.node_degree_in(h) == 1 && p.node_degree_out(h) <= 1, "c18-handoff-degree", &format!("{}", idx(h)));
         if let (Some((_, a)), Some((_, b))) = (p.node_predecessors(h).next(), p.node_successors(h).next()) {
-            rec.check(p.node_subgraph(a) != p.node_subgraph(b), "c18-handoff-inside-subgraph", &format!("{} -> h{} -> {}", idx(a), idx(h), idx(b)));
+            // a handoff joins two different subgraphs; only a delay-marked (double-buffered back-edge) handoff may
+            // lead from a subgraph back into itself
+            rec.check(p.node_subgraph(a) != p.node_subgraph(b) || p.handoff_delay_type(h).is_some(), "c18-handoff-inside-subgraph", &format!("{} -> h{} -> {}", idx(a), idx(h), idx(b)));
         }
     }
     // --- exactly one handoff per crossing flat edge: contraction of inserted handoffs gives back the flat wiring
@@ -373,7 +375,12 @@ pub fn check_c18(rec: &mut Recorder, f: &Flat, pv: &PView) {
                         let ns = p.subgraph(sg);
                         ns.iter().position(|&x| x == b) < ns.iter().position(|&x| x == c)
                     });
-                    rec.check(sgpos(b) < sgpos(c) || within, "c18-consumer-before-borrower", &format!("borrower {} consumer {}", r.node, e.dst));
+                    // consumer inside a loop block that does not contain the borrower: the block is hoisted by
+                    // `make_loops_contiguous`, reference edges get no block-contiguity ordering edge (finding F18)
+                    let cl = f.node(e.dst).lp;
+                    let hoisted = cl.is_some() && !inside(f.node(r.node).lp, cl.unwrap());
+                    let sig = if hoisted { "c18-consumer-before-borrower@loop-block-hoist" } else { "c18-consumer-before-borrower" };
+                    rec.check(sgpos(b) < sgpos(c) || within, sig, &format!("borrower {} consumer {}", r.node, e.dst));
                 }
             }
         }
